@@ -20,6 +20,9 @@ type WireSession struct {
 	buf    []byte
 	closed bool
 	seq    int
+	// Pace, when set, is called by the server-side reader before every Read and returns
+	// the maximum number of bytes to read (slow / bursty server); 0 = as much as possible.
+	Pace func() int
 }
 
 var wireKeySeq int
@@ -53,7 +56,13 @@ func NewWireSession(tweak func(*client.Config)) *WireSession {
 func (ws *WireSession) reader() {
 	b := make([]byte, 65536)
 	for {
-		n, err := ws.Srv.Read(b)
+		lim := len(b)
+		if ws.Pace != nil {
+			if k := ws.Pace(); k > 0 && k < lim {
+				lim = k
+			}
+		}
+		n, err := ws.Srv.Read(b[:lim])
 		ws.mu.Lock()
 		ws.buf = append(ws.buf, b[:n]...)
 		if err != nil {
